@@ -174,21 +174,49 @@ Theorem write_changes_nothing_else : forall data pos d i,
 Proof. exact overwrite_elsewhere. Qed.
 Print Assumptions write_changes_nothing_else.
 
+(* File::copy that says true, exactly: the source text leads (through links) to a regular file
+   with bytes c, the destination text leads to a different place dd/nd in an existing directory
+   where there was nothing or - without failIfExists - a regular file, and the state afterwards
+   is the state before with a regular file holding exactly c at that place *)
 Theorem copy_carries_the_bytes : forall st src dst fie st',
+  f_copy st src dst fie = (st', true) ->
+  exists ds ns c dd nd kd es,
+    resolve st true src = WAt ds ns (Some SFile) /\ get (root st) (ds ++ [ns]) = Some (NFile c) /\
+    resolve st (negb fie) dst = WAt dd nd kd /\ (kd = None \/ (fie = false /\ kd = Some SFile)) /\
+    get (root st) dd = Some (NDir es) /\ ds ++ [ns] <> dd ++ [nd] /\
+    st' = set_root st (upd (root st) (dd ++ [nd]) (Some (NFile c))).
+Proof. exact copy_success_exact. Qed.
+Print Assumptions copy_carries_the_bytes.
+
+(* read off the tree: the destination holds the bytes, the source keeps them, nothing else changes kind *)
+Theorem copy_leaves_the_rest : forall st src dst fie st',
   f_copy st src dst fie = (st', true) ->
   exists ps pd c, get (root st) ps = Some (NFile c) /\
                   get (root st') pd = Some (NFile c) /\ get (root st') ps = Some (NFile c) /\
                   (forall q, is_prefix pd q = false -> sget (root st') q = sget (root st) q).
 Proof. exact copy_success_bytes. Qed.
-Print Assumptions copy_carries_the_bytes.
+Print Assumptions copy_leaves_the_rest.
 
-Theorem rename_carries_the_node : forall st from to fie st' d1 n1 k1,
-  f_rename st from to fie = (st', true) -> resolve st false from = WAt d1 n1 (Some k1) ->
-  exists x d2 n2 k2,
-    get (root st) (d1 ++ [n1]) = Some x /\ resolve st false to = WAt d2 n2 k2 /\
-    get (root st') (d2 ++ [n2]) = Some x /\ cwd st' = cwd st /\ (fie = true -> k2 = None).
-Proof. exact rename_moves. Qed.
+(* File::rename that says true, exactly: `from` (a link in last position not followed) names a
+   node x, `to` names a place d2/n2 - empty when failIfExists was given - and the state afterwards
+   is the state before with x, whole, taken out and put there (or unchanged when both are one place) *)
+Theorem rename_carries_the_node : forall st from to fie st',
+  f_rename st from to fie = (st', true) ->
+  exists d1 n1 x d2 n2 k2,
+    resolve st false from = WAt d1 n1 (Some (shallow x)) /\ get (root st) (d1 ++ [n1]) = Some x /\
+    resolve st false to = WAt d2 n2 k2 /\ (fie = true -> k2 = None) /\
+    ((d1 ++ [n1] = d2 ++ [n2] /\ st' = st) \/
+     (d1 ++ [n1] <> d2 ++ [n2] /\
+      st' = set_root st (upd (upd (root st) (d1 ++ [n1]) None) (d2 ++ [n2]) (Some x)) /\
+      get (root st') (d2 ++ [n2]) = Some x)).
+Proof. exact rename_exact. Qed.
 Print Assumptions rename_carries_the_node.
+
+(* a source that does not exist is refused, also by rename(x, x, true) (repair fixes/C19/08) *)
+Theorem rename_of_missing_source_fails : forall st from to fie,
+  k_lstat st from = None -> exists st', f_rename st from to fie = (st', false).
+Proof. exact rename_missing_source_fails. Qed.
+Print Assumptions rename_of_missing_source_fails.
 
 Theorem failed_open_changes_nothing : forall st h path fr fw fa fo st',
   f_open st h path fr fw fa fo = (st', false) -> st' = st.
@@ -199,6 +227,12 @@ Theorem failed_rename_changes_nothing : forall st from to fie st',
   f_rename st from to fie = (st', false) -> st' = st.
 Proof. exact rename_failure_unchanged. Qed.
 Print Assumptions failed_rename_changes_nothing.
+
+(* in particular copy(f, f, false) leaves f alone (repair fixes/C19/07) *)
+Theorem failed_copy_changes_nothing : forall st src dst fie st',
+  f_copy st src dst fie = (st', false) -> st' = st.
+Proof. exact copy_failure_unchanged. Qed.
+Print Assumptions failed_copy_changes_nothing.
 
 Theorem failed_copy_leaves_no_new_name : forall st src dst fie st',
   f_copy st src dst fie = (st', false) ->
@@ -331,6 +365,15 @@ Proof. vm_compute. reflexivity. Qed.
 Example ex_copy :
   let (st', ok) := f_copy demo [104] [97;47;110] true in
   ok = true /\ get (root st') (cwd demo ++ [[97]; [110]]) = Some (NFile [120;121]).
+Proof. vm_compute. split; reflexivity. Qed.
+(* copy of h onto itself, directly and through a link to it: false, h keeps its bytes *)
+Example ex_copy_self : f_copy demo [104] [104] false = (demo, false).
+Proof. vm_compute. reflexivity. Qed.
+Example ex_copy_self_link :
+  let st1 := fst (f_symlink demo [104] [108]) in f_copy st1 [104] [108] false = (st1, false).
+Proof. vm_compute. reflexivity. Qed.
+(* rename(m, m, true) for a missing m: false, nothing created *)
+Example ex_rename_missing_self : k_lstat demo [109] = None /\ f_rename demo [109] [109] true = (demo, false).
 Proof. vm_compute. split; reflexivity. Qed.
 Example ex_rename :
   let (st', ok) := f_rename demo [104] [97;47;108;47;110] true in       (* through the link, to the outside *)
